@@ -21,7 +21,10 @@ E1 exploration on the real solve pipeline (`_Simu.Solve` -> `Solvers.Solve_simu`
   solution already satisfies, by "active" Lagrange conditions, or by beam connections).
 * mode: linear, or Newton-incremental (the same linear problem assembled through the nonlinear contract K = tangent,
   F = -residual by a harness subclass, started from a generic state that violates the constraints: Dirichlet values
-  become increments).
+  become increments), or one step of an implicit time scheme from a generic state (newmark, midpoint, hht, hht_newmark,
+  euler_implicit on Elastic with mass and Rayleigh damping; parabolic on Thermal): there the stated system is
+  A = cK K + cC C + cM M, b = load + history terms as the implementation builds them before constraints.
+* thorough adds a second mesh per 2D problem (TRI3 / QUAD8 / TRI3).
 * solver: every member of `SolverType` that is installed (scipy, cg, bicg, gmres, lgmres; lsq_linear where bounds exist).
 
 Reference model (dense numpy, written from the documented semantics):
@@ -49,7 +52,6 @@ from zoo import meshes as Z
 PROPERTY = "C04"
 
 ATOMS = ["dAc", "dAa", "dBf", "dAB", "nC", "lD"]
-DIRICHLET_ATOMS = {"dAc", "dAa", "dBf", "dAB"}
 PROBLEMS = ["elastic", "thermal", "beam", "damage"]
 EXPECTED_SOLVERS = ["scipy", "lsq_linear", "cg", "bicg", "gmres", "lgmres"]  # + pypardiso, petsc (not installed)
 KRYLOV = ("cg", "bicg", "gmres", "lgmres")
@@ -73,6 +75,11 @@ MODES = {
     "beam": ["linear", "newton"],
     "damage": ["History", "BoundConstrain", "BoundConstrain_active"],
 }
+# one implicit time step (statement (i) and the reduced solve hold for the schemes whose solve variable is the displacement /
+# temperature; euler_explicit solves for the acceleration with zero acceleration on constrained dofs: documented, C05)
+DYN_MODES = {"elastic": ["dyn_newmark", "dyn_midpoint", "dyn_hht", "dyn_hht_newmark", "dyn_euler_implicit"],
+             "thermal": ["dyn_parabolic"]}
+DYN_DT = 0.37
 GROUNDS = {"elastic": ["first", "last", "none"], "thermal": ["first", "last", "none"], "beam": ["first", "last", "none"],
            "damage": ["none", "first"]}
 
@@ -154,37 +161,56 @@ def cases(tier, seed):
                 # expensive one: quick runs those with scipy and cg only
                 kry = "all" if (tier == "thorough" or (c["resol"] == "elim" and not (problem == "beam" and c["mode"] == "newton"))) else "cg"
                 out.append({"problem": problem, "prog": prog, "mesh": "base", **c, "krylov": kry})
+    # implicit time schemes (elimination): thorough = all programs x ground x orphan x scheme; quick = programs of <= 2 atoms x
+    # every scheme, 3-atom programs x the first scheme, default ground, without orphan
+    for problem, modes in DYN_MODES.items():
+        for prog in progs:
+            n = prog.count(">") + 1
+            for mode in modes if (tier == "thorough" or n <= 2) else modes[:1]:
+                for ground in GROUNDS[problem] if tier == "thorough" else GROUNDS[problem][:1]:
+                    if ground == "none" and not supported(problem, "elim", prog):
+                        continue
+                    for orphan in [False, True] if tier == "thorough" else [False]:
+                        out.append({"problem": problem, "prog": prog, "mesh": "base", "ground": ground, "orphan": orphan,
+                                    "resol": "elim", "mode": mode, "krylov": "all"})
+    out.append({"kind": "solver_set"})
     return out
 
 
 def describe(tier, seed):
     nprog = len(programs(3))
     return {
-        "rule": "E1: problem x BC program (every ordered selection of 1..3 of 6 atoms, A n B != {}) x ground x orphan x resolution x mode; "
-                "inside a case every installed solver backend is run on a freshly built simulation. "
-                "non-trivial = the reference solution moves free dofs and the program was solvable; distinct = fingerprint of the reference solution and the per-solver outcomes",
+        "rule": "E1: problem x BC program (every ordered selection of 1..3 of 6 atoms, A n B != {}) x ground x orphan x resolution x mode (x mesh); "
+                "inside a case one freshly built simulation is solved with every installed solver backend, each time from the reset start state. "
+                "non-trivial = the reference solution moves free dofs (the program was solvable); distinct = fingerprint of (configuration, reference solution, per-solver outcomes)",
         "exhaustive": True,
-        "bound": ("thorough: full product of all factors for all %d programs" % nprog) if tier == "thorough" else
-                 ("quick: all %d programs; programs of <= 2 atoms with the full product of (ground, orphan, resolution, mode), 3-atom programs with the default "
-                  "configuration and every single-factor deviation; every installed solver in every case (Lagrange resolutions: scipy and cg only in quick)" % nprog),
+        "bound": ("thorough: all %d programs x the full product of (ground, orphan, resolution, mode, mesh) per problem; implicit time schemes: all programs x ground x orphan x scheme" % nprog)
+                 if tier == "thorough" else
+                 ("quick: all %d programs; programs of <= 2 atoms with every configuration differing from the default in <= 2 of (ground, orphan, resolution, mode); "
+                  "3-atom programs with the default configuration and every single deviation in orphan / resolution / mode; implicit time schemes: programs of <= 2 atoms x every "
+                  "scheme, 3-atom programs x the first scheme; every installed solver in every case except Lagrange resolutions and beam-Newton (scipy and cg)" % nprog),
         "alphabet": {"problems": len(PROBLEMS), "programs": nprog, "atoms": len(ATOMS), "ground": 3, "orphan": 2,
-                     "resolution": {p: len(RESOLS[p]) for p in PROBLEMS}, "mode": {p: len(MODES[p]) for p in PROBLEMS},
-                     "solvers": EXPECTED_SOLVERS},
+                     "resolution": {p: len(RESOLS[p]) for p in PROBLEMS}, "mode": {p: len(MODES[p]) + len(DYN_MODES.get(p, [])) for p in PROBLEMS},
+                     "mesh": {p: len(MESHES[p]) if tier == "thorough" else 1 for p in PROBLEMS}, "solvers": EXPECTED_SOLVERS},
         "assumptions": [
             "pypardiso, petsc (and mumps/superlu through petsc) are not installed: those SolverType members are not exercised; MPI paths not exercised",
-            "meshes of <= 40 dofs with cond(K_ff) <= 1e8 (guard, skip-with-count otherwise)",
+            "meshes of <= 40 dofs with cond of the reduced system <= 1e8 (guard, skip-with-count otherwise)",
             "duplicated Dirichlet dofs hold the SUM of the entered values (docstring of _Simu._Bc_Add_Dirichlet); nodal loads superpose "
             "(the docstring of _Bc_Add_Neumann saying a second load on a dof is ignored is stale: a line load itself enters shared nodes once per element)",
-            "K and the volume source are read from a twin simulation without boundary conditions, nodal loads from the entered Neumann list (C03 / C09 check those)",
+            "K (C, M) and the volume source are read from a twin simulation without boundary conditions, nodal loads from the entered Neumann list, scheme coefficients and "
+            "history terms of a time step from the implementation (C03 / C09 / C05 check those)",
             "tolerances: constrained dofs and connection constraints 1e-12 (relative to max|u|); residual and agreement 1e-9 for direct solves, "
             "20 x the backend's default rtol for Krylov backends (residual relative to ||b_reduced||); lsq_linear (lsmr inside, capped iterations) 2e-5, "
             "with active bounds its first-order optimality in the Coleman-Li scaling instead of the residual",
             "the value left on a free dof of an orphan node is not prescribed by the property: only finiteness is demanded there",
+            "programs whose own constraints leave the stated system singular (ground = none) are left out by a stated rule, re-checked on the dense reference",
             "with a Lagrange condition the implementation falls back to the direct solver whatever simu.solver says (documented in _Solve_Axb); the case is run anyway",
             "Newton-incremental mode is exercised for Elastic, Thermal, Beam (harness subclass); the damage sub-problem of PhaseField is linear by construction",
-            "euler_explicit (solve variable = acceleration) is out of scope (C05)",
+            "euler_explicit (solve variable = acceleration, zero acceleration on constrained dofs: documented) is out of scope (C05)",
+            "the two beam member models and the twin observations are shared between the cases of one worker process (pure functions of their key)",
         ],
-        "explanation": "Each configuration is solved by the real pipeline and compared with a dense numpy elimination / KKT reference.",
+        "explanation": "Each configuration is solved by the real pipeline and compared with a dense numpy elimination / KKT reference; "
+                       "the bounded least-squares backend additionally against the optimality conditions of its bound-constrained problem.",
     }
 
 
@@ -370,10 +396,21 @@ def build_simu(spec, mode):
     if p == "elastic":
         cls = nl_class(Simulations.Elastic) if newton else Simulations.Elastic
         simu = cls(spec.zoo.build(), Models.Elastic.Isotropic(2, E=3.0, v=0.25, planeStress=True, thickness=0.8))
+        if mode.startswith("dyn_"):
+            from EasyFEA.Simulations.Solvers import AlgoType
+
+            simu.rho = 1.7
+            simu.Set_Rayleigh_Damping_Coefs(0.11, 0.07)
+            algo = mode[4:]
+            par = {"hht": {"alpha": 0.1, "beta": 0.3025, "gamma": 0.6}, "hht_newmark": {"alpha": 1 / 6}, "newmark": {"beta": 0.3, "gamma": 0.6}}.get(algo, {})
+            simu.Solver_Set_Hyperbolic_Algorithm(DYN_DT, AlgoType[algo], **par)
         return simu, simu.problemType
     if p == "thermal":
         cls = nl_class(Simulations.Thermal) if newton else Simulations.Thermal
         simu = cls(spec.zoo.build(), Models.Thermal(k=1.3, c=0.9, thickness=0.8))
+        if mode.startswith("dyn_"):
+            simu.rho = 1.7
+            simu.Solver_Set_Parabolic_Algorithm(DYN_DT, 0.5)
         return simu, simu.problemType
     if p == "damage":
         PF = Models.PhaseField
@@ -607,6 +644,12 @@ def _tol_agree(solver):
 _TWIN_CACHE: dict = {}
 
 
+def dyn_state(problem, n):
+    """generic prior state (u_n, v_n, a_n) of the implicit time step."""
+    r = rng("c04dyn", problem, n)
+    return r.normal(size=n) * 0.02, r.normal(size=n) * 0.05, r.normal(size=n) * 0.1
+
+
 def twin_observations(case, spec, order):
     """K, volume source, entered loads and the bookkeeping checks of the entered conditions, from a twin simulation.
     They depend on (problem, program, ground, orphan, joint layout) only and are shared by the cases of this process that
@@ -614,18 +657,28 @@ def twin_observations(case, spec, order):
     from mc.util import seed
 
     problem, prog, orphan = case["problem"], case["prog"], case["orphan"]
-    ck = (seed(), problem, case.get("mesh", "base"), prog, case["ground"], orphan, problem == "beam" and case["resol"] == "elim")
+    ck = (seed(), problem, case.get("mesh", "base"), prog, case["ground"], orphan, problem == "beam" and case["resol"] == "elim",
+          case["mode"] if case["mode"].startswith("dyn_") else "")
     if ck in _TWIN_CACHE:
         return _TWIN_CACHE[ck]
-    twin, pt = build_simu(spec, "History" if problem == "damage" else "linear")
-    K0, _, _, F0 = twin.Get_K_C_M_F(pt)
+    dyn = case["mode"].startswith("dyn_")
+    twin, pt = build_simu(spec, "History" if problem == "damage" else (case["mode"] if dyn else "linear"))
+    K0, C0, M0, F0 = twin.Get_K_C_M_F(pt)
     K = K0.toarray().astype(float)
     n = spec.coords.shape[0] * spec.dof_n
     if K.shape != (n, n):
         return {"fatal": viol("system_size", f"K has shape {K.shape}, expected {(n, n)}", problem=problem)}
     F = np.asarray(F0.todense()).ravel().astype(float).copy()
     entries, nops = apply_program(twin, pt, spec, order)
-    np.add.at(F, np.asarray(twin.Bc_dofs_Neumann(pt), dtype=int), np.asarray(twin.Bc_values_Neumann(pt), dtype=float))
+    if dyn:
+        # the stated system of one implicit step: A = cK K + cC C + cM M, b = load + history terms, both as the implementation
+        # builds them before any constraint is applied (scheme coefficients and history terms are C05's subject)
+        twin._Set_solutions(pt, *[x.copy() for x in dyn_state(problem, n)])
+        cK, cC, cM = twin._Solver_Get_K_C_M_coefs_for_time_scheme()
+        K = cK * K + cC * C0.toarray() + cM * M0.toarray()
+        F = np.asarray(twin._Solver_Apply_Neumann(pt).todense()).ravel().astype(float).copy()
+    else:
+        np.add.at(F, np.asarray(twin.Bc_dofs_Neumann(pt), dtype=int), np.asarray(twin.Bc_values_Neumann(pt), dtype=float))
     orphan_dofs = [nd * spec.dof_n + c for nd in spec.orphan_nodes for c in range(spec.dof_n)]
     dup = len({d for d, _ in entries}) < len(entries)
     key = dict(problem=problem, mesh=case.get("mesh", "base"), orphan=bool(orphan), dup=bool(dup))
@@ -652,7 +705,25 @@ def twin_observations(case, spec, order):
     return out
 
 
+def _run_solver_set(case):
+    """the SolverType members of the implementation against the set this check was written for."""
+    from EasyFEA.Simulations import Solvers
+
+    names = [s.name for s in Solvers.SolverType]
+    v = []
+    missing = [s for s in EXPECTED_SOLVERS + ["pypardiso", "petsc"] if s not in names]
+    new = [s for s in names if s not in EXPECTED_SOLVERS + ["pypardiso", "petsc"]]
+    if missing:
+        v.append(viol("solver_set", f"SolverType lost the members {missing}", which="missing"))
+    if new:
+        v.append(viol("solver_set", f"SolverType has members this check does not know how to qualify: {new} (they are run with the direct-solver tolerance)", which="new"))
+    return {"violations": v, "fingerprint": fp(names, installed_solvers()), "nontrivial": True, "transitions": 1,
+            "outcome": "ok" if not v else "violation"}
+
+
 def run_case(case):
+    if case.get("kind") == "solver_set":
+        return _run_solver_set(case)
     problem, prog, ground, orphan, resol, mode = (case[k] for k in ("problem", "prog", "ground", "orphan", "resol", "mode"))
     spec = make_spec(case)
     order = program_order(prog, ground)
@@ -713,18 +784,20 @@ def run_case(case):
         add_lagrange(simu, pt, spec, resol, lspecs)  # ... or after them
     ntr += len(order) + (1 if resol != "elim" else 0)
     if mode == "newton":
-        start = rng("c04u0", problem, n).normal(size=n) * 0.02  # generic state violating the constraints
+        start = (rng("c04u0", problem, n).normal(size=n) * 0.02,)  # generic state violating the constraints
+    elif mode.startswith("dyn_"):
+        start = dyn_state(problem, n)
     elif lb_prev is not None:
-        start = lb_prev
+        start = (lb_prev,)
     else:
-        start = np.zeros(n)
+        start = (np.zeros(n),)
     for solver in solvers:
         key = dict(basekey, solver=solver)
         simu.solver = solver
         if str(simu.solver) != solver:
             v.append(viol("solver_refused", f"simu.solver = {solver!r} was not accepted", **key))
             continue
-        simu._Set_solutions(pt, start.copy())
+        simu._Set_solutions(pt, *[x.copy() for x in start])
         u, err, msgs = solve_impl(simu, pt, spec)
         ntr += 1
         sing = [m for m in msgs if "singular" in m.lower() or "MatrixRankWarning" in m]
